@@ -219,6 +219,19 @@ def _run(ctx, drv):
             o = drv.opts()
             drv.emit(copy.deepcopy(root) if o.get("x") else root, o, "history", expect_refusal=bool(bad),
                      extra={"ops": ops[-12:]})
+
+    # ---- (4) thorough: the repository's own test-suite under the contract (about 250 hand-written call contexts)
+    if not ctx.quick and ctx.shard == 0:
+        from .. import suite
+        data, tail = suite.run_suite()
+        if data is None:
+            res.inconclusive_because("repository test-suite under contracts did not finish: " + str(tail)[-200:])
+        else:
+            res.count("suite_tests", data["tests"])
+            res.count("suite_pprint_judged", data["pprint_judged"])
+            for x in data["content"]:
+                res.violation("under-repo-tests:" + x["kind"], {"workload": "repo-suite", "test": x["test"], "text": x["text"], "dict": None,
+                                                                 "options": None}, x["detail"], None)
     res.count("pprint_contract_evals_total", contracts.EVALS.get("pprint", 0))
     res.count("monitor_errors", contracts.EVALS.get("pprint-monitor-error", 0))
     if contracts.EVALS.get("pprint-monitor-error", 0):
